@@ -84,6 +84,10 @@ def EFFECTS(fnenv):
     }
 
 
+# element types of the collections a `for` loop may range over
+ELEM = {'qcvotes': 'pair:key:sig', 'tcvotes': 'pair:key:sig:N', 'list': 'N'}
+
+
 class Env:
     def __init__(self, vars_=None):
         self.v = dict(vars_ or {})      # rust name -> (gallina term, type)
@@ -104,6 +108,8 @@ class Tr:
     def __init__(self, src, fname, kind, effects, inline_ok=True):
         self.src, self.fname, self.kind, self.effects, self.inline_ok = src, fname, kind, effects, inline_ok
         self.depth = 0
+        self.self_fields, self.self_setters = SELF_FIELDS, SELF_SETTERS
+        self.for_name = 'mfor'
 
     # ------------------------------------------------------------ pure expressions
     def strip(self, e):
@@ -139,9 +145,9 @@ class Tr:
             return '(%s)' % ', '.join(t for t, _ in ts), 'pair:' + ':'.join(ty for _, ty in ts)
         if k == 'field':
             b = self.strip(e[1])
-            if b == ('path', ['self']):
-                if e[2] in SELF_FIELDS:
-                    return SELF_FIELDS[e[2]]
+            if b == ('path', ['self']) and self.self_fields is not None:
+                if e[2] in self.self_fields:
+                    return self.self_fields[e[2]]
                 raise Untranslatable('self.%s is not part of the modelled state' % e[2])
             t, ty = self.pure(b, env)
             if ty in FIELDS and e[2] in FIELDS[ty]:
@@ -181,6 +187,8 @@ class Tr:
             if f == ('path', ['max']) or f == ('path', ['std', 'cmp', 'max']) or f == ('path', ['cmp', 'max']):
                 a, _ = self.pure(e[2][0], env); b, _ = self.pure(e[2][1], env)
                 return '(N.max %s %s)' % (a, b), 'N'
+            if f == ('path', ['Vec', 'new']):
+                return '[]', 'list'
             if f == ('path', ['QC', 'genesis']):
                 return 'qc_genesis', 'QC'
             if f == ('path', ['Block', 'genesis']):
@@ -325,6 +333,17 @@ class Tr:
             if f == ('path', ['bincode', 'serialize']):
                 t, ty = self.value(e[2][0], env, binds)
                 return t, 'ser:' + ty
+            if f == ('path', ['bincode', 'deserialize']):
+                t, ty = self.value(e[2][0], env, binds)
+                if not ty.startswith('ser:'):
+                    raise Untranslatable('deserialize of a value of type %s' % ty)
+                return t, ty[4:]
+            if f == ('path', ['ConsensusMempoolMessage', 'Synchronize']) and len(e[2]) == 2:
+                a, _ = self.value(e[2][0], env, binds); b, _ = self.value(e[2][1], env, binds)
+                return '(OMemSync %s %s)' % (a, b), 'mmsg:Synchronize'
+            if f == ('path', ['PayloadWaiterMessage', 'Wait']) and len(e[2]) == 2:
+                a, _ = self.value(e[2][0], env, binds); b, _ = self.value(e[2][1], env, binds)
+                return 'pw_wait %s %s' % (a, b), 'pwmsg:Wait'
         if k == 'binary':
             l, lt = self.value(e[2], env, binds)
             r, rt_ = self.value(e[3], env, binds)
@@ -362,6 +381,21 @@ class Tr:
             if name == 'broadcast' and aty == 'bcast' and mty == 'ser:cmsg:TC':
                 binds.append((x, 'emit (OTC %s)' % re.sub(r'^\(MsgTC (.*)\)$', r'\1', m), 'unit')); return x, 'unit'
             raise Untranslatable('network.%s of a %s to %s' % (name, mty, aty))
+        if recv == ('field', ('path', ['self']), 'inner_channel') and name == 'send':
+            b, bty = self.value(args[0], env, binds)
+            if bty != 'Block':
+                raise Untranslatable('inner_channel.send of a %s' % bty)
+            x = env.fresh('r'); binds.append((x, 'sync_park %s' % b, 'unit')); return x, 'unit'
+        if recv == ('field', ('path', ['self']), 'tx_mempool') and name == 'send':
+            m, mty = self.value(args[0], env, binds)
+            if mty != 'mmsg:Synchronize':
+                raise Untranslatable('tx_mempool.send of a %s' % mty)
+            x = env.fresh('r'); binds.append((x, 'emit %s' % m, 'unit')); return x, 'unit'
+        if recv == ('field', ('path', ['self']), 'tx_payload_waiter') and name == 'send':
+            m, mty = self.value(args[0], env, binds)
+            if mty != 'pwmsg:Wait':
+                raise Untranslatable('tx_payload_waiter.send of a %s' % mty)
+            x = env.fresh('r'); binds.append((x, m, 'unit')); return x, 'unit'
         if recv == ('field', ('path', ['self']), 'store') and name == 'write':
             kk, kty = self.value(args[0], env, binds); v, vty = self.value(args[1], env, binds)
             if vty == 'ser:Block' and kk == '(block_digest %s)' % v:
@@ -383,7 +417,7 @@ class Tr:
             env2.v[pn] = self.value(a, env, binds)
         kind = 'result' if 'Result' in ret else 'plain'
         rty = 'unit' if ret.strip() in ('', '()') or re.search(r'Result\s*<\s*\(\s*\)\s*>', ret) else '?'
-        sub = Tr(self.src, name, kind, self.effects, self.inline_ok); sub.depth = self.depth + 1
+        sub = type(self)(self.src, name, kind, self.effects, self.inline_ok); sub.depth = self.depth + 1
         code = sub.block(body, env2, lambda t, ty, e_: 'ret %s' % t)
         x = env.fresh('r')
         binds.append((x, '(%s)' % code, rty))
@@ -398,7 +432,7 @@ class Tr:
             out = 's <- get ;; ' + out
         for x, m, ty in reversed(parts):
             line = ('%s ;;; ' % m) if ty == 'unit' else ('%s <- %s ;; ' % (x, m))
-            if re.search(r'\(s_\w+ s\)', m):
+            if re.search(r'\(\w+ s\)', m):
                 line = 's <- get ;; ' + line
             out = line + out
         return out
@@ -435,6 +469,12 @@ class Tr:
 
     def assigned(self, node, env, acc):
         """outer locals assigned inside node"""
+        if isinstance(node, tuple) and node and node[0] == 'mcall' and node[2] in ('insert', 'push'):
+            r = node[1]
+            while isinstance(r, tuple) and r and r[0] in ('ref', 'deref'):
+                r = r[1]
+            if r[0] == 'path' and len(r[1]) == 1 and r[1][0] in env.v and env.v[r[1][0]][1] in ('setN', 'list') and r[1][0] not in acc:
+                acc.append(r[1][0])
         if isinstance(node, tuple):
             if node and node[0] == 'assign' and node[2][0] == 'path' and len(node[2][1]) == 1 and node[2][1][0] in env.v:
                 if node[2][1][0] not in acc:
@@ -509,12 +549,15 @@ class Tr:
                 raise Untranslatable('let without initialiser')
             return self.expr_cps(init, env, lambda t, ty, env2: self.bind_pat(pat, t, ty, env2, k_rest))
         e = st[1]
+        if not rest and tail is None and not st[2] and e[0] in ('if', 'iflet', 'match') and self.is_fn_tail(kv):
+            # a branching expression in tail position of the function: its arms produce the function's value
+            return self.expr_cps(e, env, kv, is_stmt=False, is_tail=True)
         return self.expr_cps(e, env, lambda t, ty, env2: k_rest(env2), is_stmt=True)
 
     def bind_pat(self, pat, t, ty, env, k):
         if pat[0] == 'pid':
             env2 = env.copy()
-            if re.match(r'^[A-Za-z_][\w\']*$', t) or t.startswith('(s_') or ty.startswith('ser:') or ty.startswith('cmsg:') or ty in ('bcast', 'opt:addr', 'addr') or len(t) < 40:
+            if re.match(r'^[A-Za-z_][\w\']*$', t) or t.startswith('(s_') or ty.startswith('ser:') or ty.startswith('cmsg:') or ty.startswith('mmsg:') or ty.startswith('pwmsg:') or ty in ('bcast', 'opt:addr', 'addr') or len(t) < 40:
                 env2.v[pat[1]] = (t, ty)
                 return k(env2)
             x = self.coqname(pat[1], env)
@@ -546,6 +589,17 @@ class Tr:
 
     def expr_cps(self, e, env, kv, is_stmt=False, is_tail=False):
         k = e[0]
+        if is_stmt:
+            lm = self.local_mut(e, env)
+            if lm is not None:
+                n, new, ty = lm
+                env2 = env.copy()
+                if ty == 'hasher':
+                    env2.v[n] = (new, ty)
+                    return kv('tt', 'unit', env2)
+                x = self.coqname(n, env)
+                env2.v[n] = (x, ty)
+                return 'let %s := %s in %s' % (x, new, kv('tt', 'unit', env2))
         if k == 'macro':
             name = e[1]
             if name in LOG_MACROS:
@@ -565,10 +619,12 @@ class Tr:
             lhs = self.strip(e[2]); op = e[1]
             binds = []
             if lhs[0] == 'field' and lhs[1] == ('path', ['self']):
-                if lhs[2] not in SELF_SETTERS or op != '=':
+                if self.self_setters is None or lhs[2] not in self.self_setters or op not in ('=', '+='):
                     raise Untranslatable('assignment to self.%s' % lhs[2])
                 t, ty = self.value(e[3], env, binds)
-                code = 'modify (fun s0 => %s s0 %s) ;;; %s' % (SELF_SETTERS[lhs[2]], t, kv('tt', 'unit', env))
+                if op == '+=':
+                    t = '(%s + %s)' % (self.self_fields[lhs[2]][0], t)
+                code = 'modify (fun s0 => %s s0 %s) ;;; %s' % (self.self_setters[lhs[2]], t, kv('tt', 'unit', env))
                 return self.wrap(binds, code)
             if lhs[0] == 'path' and len(lhs[1]) == 1 and lhs[1][0] in env.v:
                 n = lhs[1][0]
@@ -584,7 +640,9 @@ class Tr:
             raise Untranslatable('assignment to %s' % (lhs,))
         if k in ('if', 'iflet', 'match'):
             return self.branch(e, env, kv, is_stmt, is_tail)
-        if k in ('while', 'whilelet', 'loop', 'for'):
+        if k == 'for':
+            return self.for_loop(e, env, kv)
+        if k in ('while', 'whilelet', 'loop'):
             raise Untranslatable('loop (`%s`)' % k)
         # plain expression
         if is_tail:
@@ -701,6 +759,75 @@ class Tr:
         return self.wrap(binds, '%s <- (%s) ;; %s' % (pat, inner, kv('tt', 'unit', env2)))
 
 
+    # ------------------------------------------------------------ local mutable collections, `for` loops
+    def local_mut(self, e, env):
+        """`x.insert(v)` / `l.push(v)` / `h.update(v)` on a local: -> (name, new term, type) or None"""
+        e = self.strip(e)
+        if e[0] == 'mcall':
+            recv = self.strip(e[1])
+            if recv[0] == 'path' and len(recv[1]) == 1 and recv[1][0] in env.v:
+                t, ty = env.v[recv[1][0]]
+                if ty == 'setN' and e[2] == 'insert' and len(e[3]) == 1:
+                    return recv[1][0], '(set_insert %s %s)' % (self.pure(e[3][0], env)[0], t), ty
+                if ty == 'list' and e[2] == 'push' and len(e[3]) == 1:
+                    return recv[1][0], '(%s ++ [%s])' % (t, self.pure(e[3][0], env)[0]), ty
+                if ty == 'hasher' and e[2] == 'update' and len(e[3]) == 1:
+                    return recv[1][0], t + (self.pure(e[3][0], env),), ty
+        return None
+
+    def for_loop(self, e, env, kv):
+        """`for PAT in LIST { BODY }` -> acc <- mfor LIST (fun PAT acc => BODY ;; ret acc') acc0, acc = the outer locals BODY updates"""
+        pat, it, body = e[1], e[2], e[3]
+        if self.may_return(body):
+            raise Untranslatable('`return` inside a for loop')
+        lt, lty = self.pure(it, env)
+        if lty not in ELEM:
+            raise Untranslatable('for loop over a value of type %s' % lty)
+        tys = ELEM[lty].split(':')[1:] if ELEM[lty].startswith('pair:') else None
+        mods = self.assigned(body, env, [])
+        envb = env.copy()
+        accn = []
+        for m in mods:
+            x = self.coqname(m, envb) + '_i'
+            envb.v[m] = (x, env.v[m][1]); accn.append(x)
+        if tys is None:
+            if pat[0] != 'pid':
+                raise Untranslatable('loop pattern')
+            x = self.coqname(pat[1], envb); envb.v[pat[1]] = (x, ELEM[lty]); elem = x
+        else:
+            if pat[0] != 'ptuple' or len(pat[1]) != len(tys) or not all(p[0] in ('pid', 'pwild') for p in pat[1]):
+                raise Untranslatable('loop pattern')
+            names = []
+            for p, pty in zip(pat[1], tys):
+                if p[0] == 'pid':
+                    x = self.coqname(p[1], envb); envb.v[p[1]] = (x, pty); names.append(x)
+                else:
+                    names.append('_')
+            elem = "'(%s)" % ', '.join(names)
+
+        def k_body(t, ty, env_i):
+            return 'ret (%s)' % ', '.join(env_i.v[m][0] for m in mods) if mods else 'ret tt'
+        bcode = self.block(body, envb, k_body)
+        accpat = ("'(%s)" % ', '.join(accn)) if len(accn) > 1 else (accn[0] if accn else '_')
+        init = ('(%s)' % ', '.join(env.v[m][0] for m in mods)) if mods else 'tt'
+        loop = "%s %s (fun %s %s => %s) %s" % (self.for_name, lt, elem, accpat, bcode, init)
+        env2 = env.copy()
+        outn = []
+        for m in mods:
+            x = self.coqname(m, env2); env2.v[m] = (x, env.v[m][1]); outn.append(x)
+        rest = kv('tt', 'unit', env2)
+        if len(outn) > 1:
+            acc = env.fresh('acc')
+            code = "%s <- %s ;; let '(%s) := %s in %s" % (acc, loop, ', '.join(outn), acc, rest)
+        elif outn:
+            code = '%s <- %s ;; %s' % (outn[0], loop, rest)
+        else:
+            code = '%s ;;; %s' % (loop, rest)
+        if re.search(r'\bs\b', loop):
+            code = 's <- get ;; ' + code
+        return code
+
+
 def translate_fn(src, name, impl=None, extra_env=None, effects=None, gen_name=None, params_override=None):
     fn = R.find_fn(src, name, impl)
     if fn is None:
@@ -744,6 +871,7 @@ def pretty(code, width=150):
 def main():
     core = open(os.path.join(REPO, 'consensus/src/core.rs')).read()
     sync = open(os.path.join(REPO, 'consensus/src/synchronizer.rs')).read()
+    memp = open(os.path.join(REPO, 'consensus/src/mempool.rs')).read()
     eff = EFFECTS(None)
     targets = [
         # (gen name, source text, file, fn, impl, model function applied to the section variables and parameters)
@@ -762,14 +890,22 @@ def main():
         ('gen_handle_tc', core, 'core.rs', 'handle_tc', None),
         ('gen_store_block', core, 'core.rs', 'store_block', None),
         ('gen_get_ancestors', sync, 'synchronizer.rs', 'get_ancestors', 'Synchronizer'),
+        ('gen_get_parent_block', sync, 'synchronizer.rs', 'get_parent_block', 'Synchronizer'),
+        ('gen_mempool_verify', memp, 'mempool.rs', 'verify', 'MempoolDriver'),
     ]
+    # the same store handle means different things in different tasks: blocks under their digest for the synchronizer, batches for the mempool driver
+    extra_eff = {'gen_get_parent_block': {('self.store', 'read'): ('store_read_block {0}', 'opt:ser:Block', True)},
+                 'gen_mempool_verify': {('self.store', 'read'): ('batch_read {0}', 'opt:bytes', True)}}
     defs, status = [], []
     for gname, src, fname, fn, impl in targets:
         e2 = dict(eff)
+        e2.update(extra_eff.get(gname, {}))
+        if gname == 'gen_get_parent_block':
+            del e2[('self', 'get_parent_block')]      # its own body, not the model function
         # a function's own body must not be replaced by the model function it is tied to (recursion aside)
         try:
             params, code, line, ret = translate_fn(src, fn, impl, effects=e2)
-            rt = {'gen_make_vote': 'option Vote', 'gen_get_ancestors': 'option (Block * Block)'}.get(gname, 'unit')
+            rt = {'gen_make_vote': 'option Vote', 'gen_get_ancestors': 'option (Block * Block)', 'gen_get_parent_block': 'option Block', 'gen_mempool_verify': 'bool'}.get(gname, 'unit')
             defs.append('(* %s: fn %s (line %d) -> %s *)\nDefinition %s (c : Committee) (me : N) (dq : DqCfg) (hint : list N) %s : M (%s) :=\n    %s.' % (fname, fn, line, ' '.join(ret.split()), gname, ' '.join(params), rt, pretty(code)))
             status.append({'name': gname, 'file': fname, 'fn': fn, 'line': line, 'ok': True})
         except (Untranslatable, R.ParseError, SyntaxError, KeyError, IndexError, TypeError) as ex:
